@@ -1090,7 +1090,11 @@ def call_type(interp, ty, args, kwargs, node):
             d.setitem(interp, k, v)
         return d
     if n == 'set' and getattr(interp, 'symbolic_dicts', False) and not args:
-        return ASet()
+        st = ASet()
+        cb = getattr(interp, 'on_new_container', None)
+        if cb is not None:
+            cb(st)
+        return st
     if n == 'set':
         return make_set(interp, iter_concrete(interp, args[0]) if args else [])
     if n == 'int':
